@@ -248,6 +248,14 @@ pub fn check_in(f: &F, names: &Names, g: &SymbolicAsyncGraph, outer: &HashMap<St
         }
         // the same substitution through the multi-formula entry point, as a list [rewritten, original, True] (three
         // trees of different heights): every position must carry the answer of ITS formula
+        if first_case && (f.size() <= 3 || (f.qdepth() >= 2 && f.size() >= 9)) {
+            // (small formulae and the larger templates) ... and with the pre-computed results travelling through a result archive (written with build_result_archive, read
+            // back with load_bdd_bundle - the tool's `-o` then `-e` workflow) before they are substituted
+            n += 1;
+            if let Some(w) = through_bundle(&t2, g, &ctx, &base) {
+                bad.push(w);
+            }
+        }
         if first_case {
             first_case = false;
             n += 1;
@@ -268,6 +276,60 @@ pub fn check_in(f: &F, names: &Names, g: &SymbolicAsyncGraph, outer: &HashMap<St
         }
     }
     (n, bad)
+}
+
+/// Evaluate `text` with the context sets written to an archive and loaded back; Some(problem) if the result is not `base`.
+fn through_bundle(text: &str, g: &SymbolicAsyncGraph, ctx: &HashMap<String, GraphColoredVertices>, base: &GraphColoredVertices) -> Option<String> {
+    use biodivine_hctl_model_checker::generate_output::build_result_archive;
+    use biodivine_hctl_model_checker::load_inputs::load_bdd_bundle;
+    let dir = tempfile::tempdir().ok()?;
+    let path = dir.path().join("precomputed.zip");
+    let path_s = path.to_str()?.to_string();
+    let model = g.as_network().map(|n| n.to_string()).unwrap_or_default();
+    let r = guarded(AssertUnwindSafe(|| -> Result<HashMap<String, GraphColoredVertices>, String> {
+        build_result_archive(ctx.clone(), &path_s, &model, vec![]).map_err(|e| format!("writing the archive fails: {e}"))?;
+        load_bdd_bundle(&path_s, g.symbolic_context()).map_err(|e| format!("loading the archive fails: {e}"))
+    }));
+    match r {
+        Ok(Ok(loaded)) => match run_ext(text, g, &loaded) {
+            Ok(s) if &s == base => None,
+            Ok(_) => Some(format!("{text} with the pre-computed results read back from a result archive gives a different set (largest archived set: {} BDD nodes)", ctx.values().map(|s| s.as_bdd().size()).max().unwrap_or(0))),
+            Err(e) => Some(format!("{text} with the pre-computed results read back from a result archive fails: {e}")),
+        },
+        Ok(Err(e)) => Some(format!("pre-computed results through a result archive: {e}")),
+        Err(p) => Some(format!("pre-computed results through a result archive: panic: {p}")),
+    }
+}
+
+/// A pre-computed result that is large as data (OR_i (a_i & b_i) over 13 pairs of a 26-variable frozen network: about 2^13 BDD
+/// nodes, more than 100 kB of text) substituted directly and through a result archive.
+pub fn check_large_substitution() -> Result<Vec<String>, String> {
+    let big = bigmodels::load("synthetic:pairs13", 1)?;
+    let g = &big.graph;
+    let names = big.var_names();
+    let psi = (0..13).map(|i| format!("({} & {})", names[i], names[13 + i])).collect::<Vec<_>>().join(" | ");
+    let s = run_dirty(&psi, g)?;
+    if s.as_bdd().size() < 8000 {
+        return Err(format!("the large sub-formula result only has {} BDD nodes", s.as_bdd().size()));
+    }
+    let mut bad = vec![];
+    for (full, hole) in [
+        (format!("EF ({psi}) & ~ {}", names[0]), format!("EF (%w0%) & ~ {}", names[0])),
+        (format!("!{{x}}: AX ({{x}} & ~ ({psi}))"), "!{x}: AX ({x} & ~ %w0%)".to_string()),
+        (format!("3{{x}}: @{{x}}: (({psi}) & AG ({psi}))"), "3{x}: @{x}: (%w0% & AG %w0%)".to_string()),
+    ] {
+        let base = run_dirty(&full, g)?;
+        let ctx: HashMap<String, GraphColoredVertices> = HashMap::from([("w0".to_string(), s.clone())]);
+        match run_ext(&hole, g, &ctx) {
+            Ok(r) if r == base => {}
+            Ok(_) => bad.push(format!("{hole} with %w0% := a result with {} BDD nodes differs from the full formula", s.as_bdd().size())),
+            Err(e) => bad.push(format!("{hole} fails: {e}")),
+        }
+        if let Some(w) = through_bundle(&hole, g, &ctx, &base) {
+            bad.push(w);
+        }
+    }
+    Ok(bad)
 }
 
 pub fn big_formulae_count(tier: &str) -> usize {
@@ -424,6 +486,13 @@ pub fn run(tier: &str) -> Result<Report, String> {
             }
         }
         rep.add_count("substitution_cases_on_graphs_with_a_restricted_unit_set", n_restricted);
+    }
+    // a pre-computed result that is large as data, substituted directly and through a result archive
+    {
+        for w in check_large_substitution()? {
+            rep.violations.push(Violation { case: json!({"kind": "none"}), what: format!("on synthetic:pairs13: {w}"), size: 40 });
+        }
+        total += 6;
     }
     // one public evaluation context, the SAME surrounding formula evaluated again after its label was bound to the
     // pre-computed result of another closed sub-formula (EvalContext and eval_node are public; a user who substitutes many
